@@ -16,11 +16,15 @@ Contents.
   `populateMarkers_sText`.
 * Part 4: `sGroups_comps`, `sText_unused`, `C01_reports_S_desc_TR` (the premise `Reports` of Lemmas/Segment.lean),
   `deduceLayout_sText`, **`C01_chunk_canonical_S_desc_TR`** (`parse_chunk`, any separator).
-* Part 5: **`C01_canonical_forward_S_desc_TR_partial`** — the whole `PLSSParser`, GIVEN the result of `plss_preprocess`
-  (hypothesis `hpp`); the full statement is `C01_canonical_forward_S_desc_TR_statement` (what is missing: the six scrubbers
-  and the white-space reduction on `sText` — every scrubber appends a blank behind the LAST Twp/Rge too, so the intermediate
-  texts end in blanks, which `pp_twprge_comma_remove` and the final strip remove again).
-* Part 6: concrete instances (the premise `hpp` is checked by kernel evaluation there).
+* Part 5: `C01_canonical_forward_S_desc_TR_partial` — the whole `PLSSParser`, GIVEN the result of `plss_preprocess`
+  (hypothesis `hpp`, for ANY raw text); the full statement `C01_canonical_forward_S_desc_TR_statement`.
+* Part 5b: preprocessing.  Every scrubber appends a blank behind the LAST Twp/Rge too, so the intermediate texts end in
+  blanks (`sTextF sp fin`), which `pp_twprge_comma_remove` reduces to one and the final strip removes: `hdrsTilesF`,
+  `rewrite_hdrsF`, `scrub_sText`, `scrub1_sText` … `scrub6_sText`, `reduceWhitespace_sText`, `findTwprgeRaw_sText`,
+  **`plssPreprocess_sText`**, and with it **`C01_canonical_forward_S_desc_TR`** (the whole parser on the raw text, no
+  premise) and `C01_canonical_forward_S_desc_TR_full` (the recorded statement holds).
+* Part 5c: `C01_canonical_forward_S_desc_TR_groups` — the same for a list of groups `SGp` = (lines, closing Twp/Rge), text `sDoc`.
+* Part 6: concrete instances.
 -/
 import PyTRS.Lemmas.LayoutText
 import PyTRS.Lemmas.Segment
@@ -950,8 +954,8 @@ theorem sPairs_std : ∀ (gs : List Gp) (l : Ln) (ls : List Ln) (hL : Hd), StdS 
       exact sPairs_std gs g.l g.ls hL ⟨hg.ls g.l (by simp [Gp.lines]), fun x hx => hg.ls x (by simp [Gp.lines, hx]),
         fun x hx => hs.gs x (by simp [hx]), hs.hL⟩ p hp
 
-/-- the FULL statement for the layout Sec–desc–Twp/Rge (not proved here: the preprocessing step is missing, see
-    `C01_canonical_forward_S_desc_TR_partial`): the raw canonical text, whatever separator `sp` stands behind a Twp/Rge, is
+/-- the FULL statement for the layout Sec–desc–Twp/Rge (proved in Part 5b: `C01_canonical_forward_S_desc_TR_full`): the raw
+    canonical text, whatever separator `sp` stands behind a Twp/Rge, is
     parsed into exactly one tract per line -/
 def C01_canonical_forward_S_desc_TR_statement : Prop :=
   ∀ (mc : MC) (uid0 : Nat) (a : ParserArgs) (sp : Str) (l : Ln) (ls : List Ln) (gs : List Gp) (hL : Hd),
@@ -1101,6 +1105,682 @@ theorem C01_canonical_forward_S_desc_TR_partial (mc : MC) (uid0 : Nat) (a : Pars
     rw [hblocks]
     exact hrest _
 
+/-! ## Part 5b — preprocessing of the canonical text
+
+Every scrubber rewrites a Twp/Rge into its canonical text and a blank — also the LAST one, so the intermediate texts end in
+blanks (`fin`), which `pp_twprge_comma_remove` reduces to one blank and the final strip removes. -/
+
+/-- what may stand behind the last Twp/Rge: blanks and line breaks, possibly none -/
+def FinB (fin : Str) : Prop := ∀ c ∈ fin, c = ' ' ∨ c = '\n'
+
+theorem finB_nil : FinB [] := fun _ h => by cases h
+theorem FinB.cons_blank {fin : Str} (h : FinB fin) : FinB (' ' :: fin) :=
+  fun c hc => by rcases List.mem_cons.1 hc with rfl | hc; exact Or.inl rfl; exact h c hc
+theorem finB_blank : FinB [' '] := finB_nil.cons_blank
+
+def hdrsF (sp fin : Str) : List Gp → Hd → Str
+  | [], hL => hL.text ++ fin
+  | g :: gs, hL => g.text sp ++ '\n' :: hdrsF sp fin gs hL
+
+def sTextF (sp fin : Str) (l : Ln) (ls : List Ln) (gs : List Gp) (hL : Hd) : Str := lnsText l ls ++ '\n' :: hdrsF sp fin gs hL
+
+theorem hdrsF_eq (sp fin : Str) (hL : Hd) : ∀ gs : List Gp, hdrsF sp fin gs hL = hdrsFrom sp gs hL ++ fin
+  | [] => rfl
+  | g :: gs => by simp [hdrsF, hdrsFrom, hdrsF_eq sp fin hL gs]
+
+theorem sTextF_eq (sp fin : Str) (l : Ln) (ls : List Ln) (gs : List Gp) (hL : Hd) :
+    sTextF sp fin l ls gs hL = sText sp l ls gs hL ++ fin := by
+  simp [sTextF, sText, hdrsF_eq]
+
+theorem sTextF_nil (sp : Str) (l : Ln) (ls : List Ln) (gs : List Gp) (hL : Hd) : sTextF sp [] l ls gs hL = sText sp l ls gs hL := by
+  simp [sTextF_eq]
+
+theorem hdrsF_head (sp fin : Str) (hL : Hd) (hLok : hL.Ok) : ∀ gs : List Gp, (∀ x ∈ gs, x.Ok) →
+    ∃ (h : Hd) (rest : Str), h.Ok ∧ hdrsF sp fin gs hL = h.text ++ rest
+  | [], _ => ⟨hL, fin, hLok, rfl⟩
+  | g :: gs, hgs => ⟨g.h, g.body sp ++ '\n' :: hdrsF sp fin gs hL, (hgs g (by simp)).h, by simp [hdrsF, Gp.text]⟩
+
+theorem groupTail_hdrsF (sp fin : Str) (hL : Hd) (hLok : hL.Ok) (gs : List Gp) (hgs : ∀ x ∈ gs, x.Ok) :
+    GroupTail ('\n' :: hdrsF sp fin gs hL) := by
+  obtain ⟨h, rest, hok, e⟩ := hdrsF_head sp fin hL hLok gs hgs
+  exact Or.inr ⟨h, rest, hok, by rw [e]⟩
+
+theorem endsTwprge_fin (fin : Str) (hfin : FinB fin) : EndsTwprge fin := by
+  cases fin with
+  | nil => exact EndsTwprge.nil
+  | cons c t =>
+    rcases hfin c (by simp) with rfl | rfl
+    · exact EndsTwprge.cons _ (by decide +kernel)
+    · exact EndsTwprge.cons _ (by decide +kernel)
+
+/-- tiling by headers, with `fin` behind the last one (swallowed with it if `eat`) -/
+theorem hdrsTilesF (r : Rx) (hg : GapSkips r) (sp fin : Str) (hsp : SepOk sp) (eat : Bool)
+    (mk : Hd → Nat → Match)
+    (htok : ∀ (h : Hd) (l : Ln) (rest : Str) (prev : Option Char) (pos : Nat), h.Ok → l.Ok →
+       isWord Gen.cs_14d6aa8a prev = false →
+       matchHere r ⟨prev, h.text ++ (sp ++ (l.ref ++ rest)), pos, []⟩ false = some (mk h pos) ∧ (mk h pos).start = pos ∧
+       (mk h pos).stop = pos + h.text.length + (if eat then sp.length else 0))
+    (mkL : Hd → Nat → Match)
+    (htokL : ∀ (h : Hd) (prev : Option Char) (pos : Nat), h.Ok → isWord Gen.cs_14d6aa8a prev = false →
+       matchHere r ⟨prev, h.text ++ fin, pos, []⟩ false = some (mkL h pos) ∧ (mkL h pos).start = pos ∧
+       (mkL h pos).stop = pos + h.text.length + (if eat then fin.length else 0))
+    (hfinT : eat = false → ∀ p pos, Tiles r p fin pos [])
+    (hL : Hd) (hLok : hL.Ok) :
+    ∀ (gs : List Gp) (q : Nat) (prev : Option Char), (∀ x ∈ gs, x.Ok) → isWord Gen.cs_14d6aa8a prev = false →
+      Tiles r prev (hdrsF sp fin gs hL) q (hdrMs mk sp q gs ++ [mkL hL (q + (gpsSeg sp gs).length)]) := by
+  intro gs
+  induction gs with
+  | nil =>
+    intro q prev _ hprev
+    obtain ⟨h1, h2, h3⟩ := htokL hL prev q hLok hprev
+    simp only [hdrsF, hdrMs, gpsSeg, List.nil_append, List.length_nil, Nat.add_zero]
+    cases eat with
+    | false =>
+      simp only [Bool.false_eq_true, if_false, Nat.add_zero] at h3
+      exact Tiles.tok prev hL.text fin q (mkL hL q) [] h1 h2 h3 hL.text_ne (hfinT rfl _ _)
+    | true =>
+      simp only [if_true] at h3
+      have hne : hL.text ++ fin ≠ [] := by simp [Hd.text, canonText]
+      have := Tiles.tok prev (hL.text ++ fin) [] q (mkL hL q) [] (by simpa using h1) h2
+        (by rw [h3, List.length_append]; omega) hne (Tiles.nil _ _ (matchHere_of_failsOn hg.fin0 _ _ false))
+      simpa using this
+  | cons g gs ih =>
+    intro q prev hgs hprev
+    have hok := hgs g (by simp)
+    have hgs' : ∀ x ∈ gs, x.Ok := fun x hx => hgs x (by simp [hx])
+    have hl := hok.ls g.l (by simp [Gp.lines])
+    have htail : GroupTail ('\n' :: hdrsF sp fin gs hL) := groupTail_hdrsF sp fin hL hLok gs hgs'
+    obtain ⟨h1, h2, h3⟩ := htok g.h g.l (' ' :: g.l.d ++ (lnsSeg g.ls ++ '\n' :: hdrsF sp fin gs hL)) prev q hok.h hl hprev
+    have hrest : ∀ p pos, Tiles r p ('\n' :: hdrsF sp fin gs hL) pos
+        (hdrMs mk sp (pos + 1) gs ++ [mkL hL (pos + 1 + (gpsSeg sp gs).length)]) := by
+      intro p pos
+      obtain ⟨h', rest', hok', e'⟩ := hdrsF_head sp fin hL hLok gs hgs'
+      refine Tiles.skip p '\n' _ pos _ ?_ (ih (pos + 1) (some '\n') hgs' isWord_nl)
+      rw [e']
+      exact matchHere_of_failsOn (hg.nlHdr h' rest' hok') p pos false
+    have htxt : hdrsF sp fin (g :: gs) hL =
+        g.h.text ++ (sp ++ (g.l.ref ++ (' ' :: g.l.d ++ (lnsSeg g.ls ++ '\n' :: hdrsF sp fin gs hL)))) := by
+      simp [hdrsF, Gp.text, Gp.body, Ln.text]
+    rw [htxt]
+    have hlen : (g.text sp).length = g.h.text.length + sp.length + (g.l.text ++ lnsSeg g.ls).length := by
+      simp [Gp.text, Gp.body]; omega
+    have hms : hdrMs mk sp q (g :: gs) ++ [mkL hL (q + (gpsSeg sp (g :: gs)).length)] =
+        mk g.h q :: (hdrMs mk sp (q + (g.text sp).length + 1) gs ++ [mkL hL (q + (g.text sp).length + 1 + (gpsSeg sp gs).length)]) := by
+      have : q + (gpsSeg sp (g :: gs)).length = q + (g.text sp).length + 1 + (gpsSeg sp gs).length := by
+        simp [gpsSeg]; omega
+      rw [this]; rfl
+    rw [hms]
+    cases eat with
+    | false =>
+      simp only [Bool.false_eq_true, if_false, Nat.add_zero] at h3
+      refine Tiles.tok prev g.h.text _ q _ _ h1 h2 h3 g.h.text_ne ?_
+      have hb := hg.body sp hsp g hok _ htail
+      have := Tiles.skipSeg hb (lastOr prev g.h.text) (q + g.h.text.length) (hrest _ _)
+      have e2 : q + g.h.text.length + (g.body sp).length + 1 = q + (g.text sp).length + 1 := by
+        simp [Gp.text]; omega
+      rw [e2] at this
+      simpa [Gp.body, Ln.text, List.append_assoc] using this
+    | true =>
+      simp only [if_true] at h3
+      have hne : g.h.text ++ sp ≠ [] := by simp [Hd.text, canonText]
+      have e : g.h.text ++ (sp ++ (g.l.ref ++ (' ' :: g.l.d ++ (lnsSeg g.ls ++ '\n' :: hdrsF sp fin gs hL)))) =
+          (g.h.text ++ sp) ++ (g.l.ref ++ (' ' :: g.l.d ++ (lnsSeg g.ls ++ '\n' :: hdrsF sp fin gs hL))) := by simp
+      rw [e] at h1 ⊢
+      refine Tiles.tok prev (g.h.text ++ sp) _ q _ _ h1 h2 (by rw [h3, List.length_append]; omega) hne ?_
+      have hb := hg.linesOf g hok _ htail
+      have := Tiles.skipSeg hb (lastOr prev (g.h.text ++ sp)) (q + (g.h.text ++ sp).length) (hrest _ _)
+      have e2 : q + (g.h.text ++ sp).length + (g.l.text ++ lnsSeg g.ls).length + 1 = q + (g.text sp).length + 1 := by
+        rw [hlen, List.length_append]; omega
+      rw [e2] at this
+      simpa [Ln.text, List.append_assoc] using this
+
+theorem sTextTilesF (r : Rx) (hg : GapSkips r) (sp fin : Str) (hsp : SepOk sp) (eat : Bool)
+    (mk : Hd → Nat → Match)
+    (htok : ∀ (h : Hd) (l : Ln) (rest : Str) (prev : Option Char) (pos : Nat), h.Ok → l.Ok →
+       isWord Gen.cs_14d6aa8a prev = false →
+       matchHere r ⟨prev, h.text ++ (sp ++ (l.ref ++ rest)), pos, []⟩ false = some (mk h pos) ∧ (mk h pos).start = pos ∧
+       (mk h pos).stop = pos + h.text.length + (if eat then sp.length else 0))
+    (mkL : Hd → Nat → Match)
+    (htokL : ∀ (h : Hd) (prev : Option Char) (pos : Nat), h.Ok → isWord Gen.cs_14d6aa8a prev = false →
+       matchHere r ⟨prev, h.text ++ fin, pos, []⟩ false = some (mkL h pos) ∧ (mkL h pos).start = pos ∧
+       (mkL h pos).stop = pos + h.text.length + (if eat then fin.length else 0))
+    (hfinT : eat = false → ∀ p pos, Tiles r p fin pos [])
+    (l : Ln) (ls : List Ln) (gs : List Gp) (hL : Hd) (hl : l.Ok) (hls : ∀ x ∈ ls, x.Ok) (hgs : ∀ x ∈ gs, x.Ok) (hLok : hL.Ok) :
+    Tiles r none (sTextF sp fin l ls gs hL) 0
+      (hdrMs mk sp ((lnsText l ls).length + 1) gs ++ [mkL hL ((lnsText l ls).length + 1 + (gpsSeg sp gs).length)]) := by
+  have htail : GroupTail ('\n' :: hdrsF sp fin gs hL) := groupTail_hdrsF sp fin hL hLok gs hgs
+  have hsk : Skips r (lnsText l ls) ('\n' :: hdrsF sp fin gs hL) :=
+    Skips.append (hg.line l (lnsSeg ls ++ '\n' :: hdrsF sp fin gs hL) hl (descTail_lns ls _ hls htail)) (hg.lines ls _ hls htail)
+  obtain ⟨h', rest', hok', e'⟩ := hdrsF_head sp fin hL hLok gs hgs
+  have hT := hdrsTilesF r hg sp fin hsp eat mk htok mkL htokL hfinT hL hLok gs ((lnsText l ls).length + 1) (some '\n') hgs isWord_nl
+  have hnl : Tiles r (lastOr none (lnsText l ls)) ('\n' :: hdrsF sp fin gs hL) (0 + (lnsText l ls).length) _ :=
+    Tiles.skip _ '\n' _ _ _ (by rw [e']; exact matchHere_of_failsOn (hg.nlHdr h' rest' hok') _ _ false)
+      (by rw [Nat.zero_add]; exact hT)
+  exact Tiles.skipSeg hsk none 0 hnl
+
+/-- blanks and line breaks contain no digit: a pattern every match of which needs a digit finds nothing in them -/
+theorem fin_tiles {r : Rx} (hm : r.mustHitP (fun cs => cs.sub digitD) = true) : ∀ (fin : Str), FinB fin → ∀ p pos, Tiles r p fin pos []
+  | [], _, p, pos => Tiles.nil p pos (matchHere_of_failsOn (FailsOn.of_noHit hm [] (fun _ h => by cases h)) _ _ false)
+  | c :: t, h, p, pos => by
+    have hno : ∀ d ∈ c :: t, ∀ cs : CharSet, cs.sub digitD = true → cs.mem d = false := by
+      intro d hd
+      rcases h d hd with rfl | rfl <;> exact noHit_of_notMem (by decide +kernel)
+    exact Tiles.skip p c t pos [] (matchHere_of_failsOn (FailsOn.of_noHit hm _ hno) _ _ false)
+      (fin_tiles hm t (fun d hd => h d (by simp [hd])) _ _)
+
+/-- **one scrubbing pass along the headers** of the Sec–desc–Twp/Rge text -/
+theorem rewrite_hdrsF (p : Pat) (ns ew sp fin : Str) (eat : Bool) (mk mkL : Hd → Nat → Match) (text : Str) (hL : Hd)
+    (hstart : ∀ h pos, (mk h pos).start = pos)
+    (hstop : ∀ h pos, (mk h pos).stop = pos + h.text.length + (if eat then sp.length else 0))
+    (hstartL : ∀ h pos, (mkL h pos).start = pos)
+    (hstopL : ∀ h pos, (mkL h pos).stop = pos + h.text.length + (if eat then fin.length else 0))
+    (hcan : ∀ (g : Gp) (pre post : Str), g.Ok → g.h.Canon → text = pre ++ (g.text sp ++ post) →
+      canonTR p (mk g.h pre.length) text ns ew false = g.h.text)
+    (hcanL : ∀ (pre : Str), text = pre ++ (hL.text ++ fin) → canonTR p (mkL hL pre.length) text ns ew false = hL.text) :
+    ∀ (gs : List Gp) (pre mid : Str), (∀ x ∈ gs, x.Ok ∧ x.h.Canon) →
+      text = pre ++ mid ++ hdrsF sp fin gs hL →
+      rewrite p text ns ew false (hdrMs mk sp (pre ++ mid).length gs ++ [mkL hL ((pre ++ mid).length + (gpsSeg sp gs).length)]) pre.length =
+        mid ++ hdrsF (newSep eat sp) (newSep eat fin) gs hL
+  | [], pre, mid, _, htext => by
+    have hm := hcanL (pre ++ mid) (by rw [htext]; simp [hdrsF])
+    have hsl : slice text pre.length (pre ++ mid).length = mid :=
+      slice_at text pre mid (hL.text ++ fin) _ _ (by rw [htext]; simp [hdrsF]) rfl (by simp)
+    simp only [hdrMs, gpsSeg, List.nil_append, List.length_nil, Nat.add_zero, rewrite, hstartL, hstopL, hm, hsl, hdrsF]
+    cases eat with
+    | false =>
+      have hd : text.drop ((pre ++ mid).length + hL.text.length + 0) = fin := by
+        have : text = (pre ++ mid ++ hL.text) ++ fin := by rw [htext]; simp [hdrsF]
+        rw [this]
+        have hl : (pre ++ mid).length + hL.text.length + 0 = (pre ++ mid ++ hL.text).length := by simp; omega
+        rw [hl, List.drop_left]
+      simp only [Bool.false_eq_true, if_false, hd, newSep]
+      simp
+    | true =>
+      have hd : text.drop ((pre ++ mid).length + hL.text.length + fin.length) = [] := by
+        rw [List.drop_eq_nil_iff, htext]; simp [hdrsF]; omega
+      simp only [if_true, hd, newSep]
+      simp
+  | g :: gs, pre, mid, hgs, htext => by
+    have hg := hgs g (by simp)
+    have hgs' : ∀ x ∈ gs, x.Ok ∧ x.h.Canon := fun x hx => hgs x (by simp [hx])
+    have hm := hcan g (pre ++ mid) ('\n' :: hdrsF sp fin gs hL) hg.1 hg.2 (by rw [htext]; simp [hdrsF])
+    have hsl : slice text pre.length (pre ++ mid).length = mid :=
+      slice_at text pre mid (hdrsF sp fin (g :: gs) hL) _ _ (by rw [htext]; simp) rfl (by simp)
+    have hms : hdrMs mk sp (pre ++ mid).length (g :: gs) ++ [mkL hL ((pre ++ mid).length + (gpsSeg sp (g :: gs)).length)] =
+        mk g.h (pre ++ mid).length :: (hdrMs mk sp ((pre ++ mid).length + (g.text sp).length + 1) gs ++
+          [mkL hL ((pre ++ mid).length + (g.text sp).length + 1 + (gpsSeg sp gs).length)]) := by
+      have : (pre ++ mid).length + (gpsSeg sp (g :: gs)).length = (pre ++ mid).length + (g.text sp).length + 1 + (gpsSeg sp gs).length := by
+        simp [gpsSeg]; omega
+      rw [this]; rfl
+    rw [hms]
+    simp only [rewrite, hstart, hstop, hm, hsl]
+    cases eat with
+    | false =>
+      have ih := rewrite_hdrsF p ns ew sp fin false mk mkL text hL hstart hstop hstartL hstopL hcan hcanL gs (pre ++ mid ++ g.h.text) (g.body sp ++ ['\n'])
+        hgs' (by rw [htext]; simp [hdrsF, Gp.text])
+      have hl1 : (pre ++ mid ++ g.h.text ++ (g.body sp ++ ['\n'])).length = (pre ++ mid).length + (g.text sp).length + 1 := by
+        simp [Gp.text]; omega
+      have hl2 : (pre ++ mid ++ g.h.text).length = (pre ++ mid).length + g.h.text.length + 0 := by simp; omega
+      rw [hl1, hl2] at ih
+      simp only [Bool.false_eq_true, if_false, ih, newSep]
+      simp [Gp.text, Gp.body, hdrsF]
+    | true =>
+      have ih := rewrite_hdrsF p ns ew sp fin true mk mkL text hL hstart hstop hstartL hstopL hcan hcanL gs (pre ++ mid ++ g.h.text ++ sp) (g.l.text ++ lnsSeg g.ls ++ ['\n'])
+        hgs' (by rw [htext]; simp [hdrsF, Gp.text, Gp.body])
+      have hl1 : (pre ++ mid ++ g.h.text ++ sp ++ (g.l.text ++ lnsSeg g.ls ++ ['\n'])).length = (pre ++ mid).length + (g.text sp).length + 1 := by
+        simp [Gp.text, Gp.body]; omega
+      have hl2 : (pre ++ mid ++ g.h.text ++ sp).length = (pre ++ mid).length + g.h.text.length + sp.length := by simp; omega
+      rw [hl1, hl2] at ih
+      simp only [if_true, ih, newSep]
+      simp [Gp.text, Gp.body, hdrsF]
+
+
+/-- one pass of a scrubber whose matches are the headers -/
+theorem scrub_sText (name : String) (p : Pat) (hp : findPat name = p) (hocr : (name == Gen.PLSS_OCR_SCRUBBER) = false)
+    (hg : GapSkips p.rx) (sp fin : Str) (hsp : SepOk sp) (eat : Bool) (mk mkL : Hd → Nat → Match)
+    (hstart : ∀ h pos, (mk h pos).start = pos)
+    (hstop : ∀ h pos, (mk h pos).stop = pos + h.text.length + (if eat then sp.length else 0))
+    (hstartL : ∀ h pos, (mkL h pos).start = pos)
+    (hstopL : ∀ h pos, (mkL h pos).stop = pos + h.text.length + (if eat then fin.length else 0))
+    (htok : ∀ (h : Hd) (l : Ln) (rest : Str) (prev : Option Char) (pos : Nat), h.Ok → l.Ok →
+       isWord Gen.cs_14d6aa8a prev = false →
+       matchHere p.rx ⟨prev, h.text ++ (sp ++ (l.ref ++ rest)), pos, []⟩ false = some (mk h pos))
+    (htokL : ∀ (h : Hd) (prev : Option Char) (pos : Nat), h.Ok → isWord Gen.cs_14d6aa8a prev = false →
+       matchHere p.rx ⟨prev, h.text ++ fin, pos, []⟩ false = some (mkL h pos))
+    (hfinT : eat = false → ∀ pv pos, Tiles p.rx pv fin pos [])
+    (ns ew : Str) (h1 : isLegal Gen.LEGAL_NS ns = true) (h2 : isLegal Gen.LEGAL_EW ew = true)
+    (hcan : ∀ (text : Str) (g : Gp) (pre post : Str), g.Ok → g.h.Canon → text = pre ++ (g.text sp ++ post) →
+      canonTR p (mk g.h pre.length) text ns ew false = g.h.text)
+    (hcanL : ∀ (text : Str) (h : Hd) (pre : Str), h.Ok → h.Canon → text = pre ++ (h.text ++ fin) →
+      canonTR p (mkL h pre.length) text ns ew false = h.text)
+    (l : Ln) (ls : List Ln) (gs : List Gp) (hL : Hd) (hl : l.Ok) (hls : ∀ x ∈ ls, x.Ok) (hgs : ∀ x ∈ gs, x.Ok ∧ x.h.Canon)
+    (hLok : hL.Ok) (hLc : hL.Canon) :
+    subScrubber name (sTextF sp fin l ls gs hL) ns ew = .ok (sTextF (newSep eat sp) (newSep eat fin) l ls gs hL) := by
+  have hgs' : ∀ x ∈ gs, x.Ok := fun x hx => (hgs x hx).1
+  have hfi : p.rx.finditer (sTextF sp fin l ls gs hL) =
+      hdrMs mk sp ((lnsText l ls).length + 1) gs ++ [mkL hL ((lnsText l ls).length + 1 + (gpsSeg sp gs).length)] :=
+    (sTextTilesF p.rx hg sp fin hsp eat mk
+      (fun h l rest prev pos hh hl hprev => ⟨htok h l rest prev pos hh hl hprev, hstart h pos, hstop h pos⟩) mkL
+      (fun h prev pos hh hprev => ⟨htokL h prev pos hh hprev, hstartL h pos, hstopL h pos⟩) hfinT
+      l ls gs hL hl hls hgs' hLok).finditer_eq
+  rw [C08_subScrubber_rewrites name _ ns ew h1 h2, hp, hocr, hfi]
+  have := rewrite_hdrsF p ns ew sp fin eat mk mkL (sTextF sp fin l ls gs hL) hL hstart hstop hstartL hstopL (hcan _)
+    (fun pre ht => hcanL _ hL pre hLok hLc ht) gs [] (lnsText l ls ++ ['\n']) hgs (by simp [sTextF])
+  have hlen : ([] ++ (lnsText l ls ++ ['\n'])).length = (lnsText l ls).length + 1 := by simp
+  rw [hlen] at this
+  simp only [List.length_nil] at this
+  rw [this]
+  simp [sTextF]
+
+theorem twprge_mustDigit : Gen.twprge_regex.mustHitP (fun cs => cs.sub digitD) = true := by decide +kernel
+
+/-- scrubber 1 (`twprge_regex`) -/
+theorem scrub1_sText (sp fin : Str) (hsp : SepOk sp) (hfin : FinB fin) (ns ew : Str) (h1 : isLegal Gen.LEGAL_NS ns = true)
+    (h2 : isLegal Gen.LEGAL_EW ew = true)
+    (l : Ln) (ls : List Ln) (gs : List Gp) (hL : Hd) (hl : l.Ok) (hls : ∀ x ∈ ls, x.Ok) (hgs : ∀ x ∈ gs, x.Ok ∧ x.h.Canon)
+    (hLok : hL.Ok) (hLc : hL.Canon) :
+    subScrubber "twprge_regex" (sTextF sp fin l ls gs hL) ns ew = .ok (sTextF (' ' :: sp) (' ' :: fin) l ls gs hL) := by
+  refine scrub_sText "twprge_regex" twprge rfl (by decide) twprge_gapSkips sp fin hsp false twMk twMk (fun _ _ => rfl)
+    (fun h pos => by simp [twMk, Spelling.matchAt, h.sp_text]) (fun _ _ => rfl)
+    (fun h pos => by simp [twMk, Spelling.matchAt, h.sp_text])
+    (fun h l rest prev pos hh hl hprev => (twprge_tok sp hsp h l rest prev pos hh hl hprev).1) ?_
+    (fun _ => fin_tiles twprge_mustDigit fin hfin) ns ew h1 h2
+    (fun text g pre post hok hc ht => twprge_hcan sp hsp ns ew text g pre post hok hc ht) ?_ l ls gs hL hl hls hgs hLok hLc
+  · intro h prev pos hh hprev
+    have hv := h.valid hh fin (endsTwprge_fin fin hfin)
+    have := C08_spelling_matchHere h.sp _ hv prev hprev pos false
+    rw [h.sp_text] at this
+    exact this
+  · intro text h pre hh hc htext
+    have hv := h.valid hh fin (endsTwprge_fin fin hfin)
+    have htext' : text = pre ++ (h.sp.text ++ fin) := by rw [htext, h.sp_text]
+    rw [htext']
+    exact (h.sp.canonTR_at pre _ hv ns ew).trans (h.canon_text hh hc)
+
+/-- the common part of scrubbers 2–4 -/
+theorem scrubPP_sText (name : String) (p : Pat) (hp : findPat name = p) (hocr : (name == Gen.PLSS_OCR_SCRUBBER) = false)
+    (hg : GapSkips p.rx) (hmust : p.rx.mustHitP (fun cs => cs.sub digitD) = true)
+    (hidx : p.idx? "twpnum" = some 3 ∧ p.idx? "ns" = some 4 ∧ p.idx? "rgenum" = some 6 ∧ p.idx? "ew" = some 7)
+    (caps : Str → Str → Nat → Caps) (hcaps : ∀ t r pos stop, CanonAt ⟨pos, stop, caps t r pos⟩ pos t r)
+    (hat : ∀ (t r : Str) (nc ec : Char) (ctx : Str), CanonHyp t r nc ec ctx → ∀ (prev : Option Char) (pos : Nat),
+      isWord Gen.cs_14d6aa8a prev = false →
+      matchHere p.rx ⟨prev, canonText t nc r ec ++ ctx, pos, []⟩ false = some ⟨pos, pos + (5 + t.length + r.length), caps t r pos⟩)
+    (sp fin : Str) (hsp : SepOk sp) (hfin : FinB fin) (ns ew : Str) (h1 : isLegal Gen.LEGAL_NS ns = true) (h2 : isLegal Gen.LEGAL_EW ew = true)
+    (l : Ln) (ls : List Ln) (gs : List Gp) (hL : Hd) (hl : l.Ok) (hls : ∀ x ∈ ls, x.Ok) (hgs : ∀ x ∈ gs, x.Ok ∧ x.h.Canon)
+    (hLok : hL.Ok) (hLc : hL.Canon) :
+    subScrubber name (sTextF sp fin l ls gs hL) ns ew = .ok (sTextF (' ' :: sp) (' ' :: fin) l ls gs hL) := by
+  refine scrub_sText name p hp hocr hg sp fin hsp false
+    (fun h pos => ⟨pos, pos + (5 + h.t.length + h.r.length), caps h.t h.r pos⟩)
+    (fun h pos => ⟨pos, pos + (5 + h.t.length + h.r.length), caps h.t h.r pos⟩) (fun _ _ => rfl)
+    (fun h pos => by simp [h.text_length]) (fun _ _ => rfl) (fun h pos => by simp [h.text_length])
+    (fun h l rest prev pos hh hl hprev => hat h.t h.r h.ns h.ew _ (h.canonHyp hh _ (endsTwprge_body sp hsp l rest)) prev pos hprev)
+    (fun h prev pos hh hprev => hat h.t h.r h.ns h.ew _ (h.canonHyp hh _ (endsTwprge_fin fin hfin)) prev pos hprev)
+    (fun _ => fin_tiles hmust fin hfin) ns ew h1 h2 ?_ ?_ l ls gs hL hl hls hgs hLok hLc
+  · intro text g' pre post hok' hc' htext
+    have htext' : text = pre ++ (canonText g'.h.t g'.h.ns g'.h.r g'.h.ew ++ (g'.body sp ++ post)) := by
+      rw [htext]; simp [Gp.text, Hd.text]
+    rw [htext']
+    exact (canonTR_of_canonAt p hidx _ g'.h.t g'.h.r g'.h.ns g'.h.ew pre _ (hcaps _ _ _ _) hok'.h.ns hok'.h.ew ns ew).trans
+      (g'.h.canon_canonText hc')
+  · intro text h pre hh hc htext
+    have htext' : text = pre ++ (canonText h.t h.ns h.r h.ew ++ fin) := by rw [htext]; rfl
+    rw [htext']
+    exact (canonTR_of_canonAt p hidx _ h.t h.r h.ns h.ew pre _ (hcaps _ _ _ _) hh.ns hh.ew ns ew).trans (h.canon_canonText hc)
+
+/-- the characters of the text -/
+theorem docCh_sTextF (sp fin : Str) (hsp : SepOk sp) (hfin : FinB fin) (l : Ln) (ls : List Ln) (gs : List Gp) (hL : Hd)
+    (hl : l.Ok) (hls : ∀ x ∈ ls, x.Ok) (hgs : ∀ x ∈ gs, x.Ok) (hLok : hL.Ok) : ∀ c ∈ sTextF sp fin l ls gs hL, DocCh c := by
+  intro c hc
+  rw [sTextF_eq, sText_eq] at hc
+  simp only [List.mem_append, List.mem_cons] at hc
+  rcases hc with (hc | hc | hc | rfl | hc) | hc
+  · exact docCh_line l hl c hc
+  · exact docCh_lines ls hls c hc
+  · exact docCh_groups sp hsp gs hgs c hc
+  · exact Or.inl (by decide)
+  · exact docCh_hdr hL hLok c hc
+  · rcases hfin c hc with rfl | rfl <;> exact Or.inl (by decide)
+
+/-- scrubber 5 (`pp_twprge_pm`) finds nothing -/
+theorem scrub5_sText (sp fin : Str) (hsp : SepOk sp) (hfin : FinB fin) (ns ew : Str) (h1 : isLegal Gen.LEGAL_NS ns = true)
+    (h2 : isLegal Gen.LEGAL_EW ew = true) (l : Ln) (ls : List Ln) (gs : List Gp) (hL : Hd)
+    (hl : l.Ok) (hls : ∀ x ∈ ls, x.Ok) (hgs : ∀ x ∈ gs, x.Ok) (hLok : hL.Ok) :
+    subScrubber "pp_twprge_pm" (sTextF sp fin l ls gs hL) ns ew = .ok (sTextF sp fin l ls gs hL) := by
+  have hm : Gen.pp_twprge_pm.mustHitP (fun cs => cs.sub pD) = true := by decide +kernel
+  refine scrub_none "pp_twprge_pm" ppPmPat rfl _ ns ew h1 h2 (finditer_nil_of_noHit hm _ ?_)
+  intro c hc
+  exact docCh_avoid pD (by decide) (by decide +kernel) (by decide) (docCh_sTextF sp fin hsp hfin l ls gs hL hl hls hgs hLok c hc)
+
+theorem comma_tokL (fin : Str) (hfin : FinB fin) (h : Hd) (prev : Option Char) (pos : Nat) (hok : h.Ok)
+    (hprev : isWord Gen.cs_14d6aa8a prev = false) :
+    matchHere Gen.pp_twprge_comma_remove ⟨prev, h.text ++ fin, pos, []⟩ false = some (commaMk fin h pos) := by
+  have hv := h.valid hok fin (endsTwprge_fin fin hfin)
+  obtain ⟨c, t, htext, hc⟩ := hv.text_head
+  obtain ⟨f, hf, hcaps⟩ := eats_twBody h.sp fin hv
+  have h1 := leads_twG1 prev c t pos [] hprev hc
+  rw [← htext] at h1
+  have h2 := hf prev pos [(1, pos, pos)]
+  have h12 : Leads Gen.twprge_regex _ _ := Leads.congr_rx twprge_decomp (Leads.seq h1 h2)
+  have hws : ∀ c ∈ fin, Gen.cs_0c338893.mem c = true := by
+    intro c hc
+    rcases hfin c hc with rfl | rfl <;> decide
+  have hstop : StopAt Gen.cs_0c338893 [] := StopAt.nil _
+  have h15 := Eats.grp 15 (eats_dead Gen.cs_0c338893 fin [] hws hstop) (lastOr prev h.sp.text) (pos + h.sp.text.length)
+    (f pos [(1, pos, pos)])
+  rw [List.append_nil] at h15
+  have hL := Leads.congr_rx comma_decomp (Leads.snoc (Leads.seq h12 h15))
+  rw [h.sp_text] at hL
+  rw [matchHere_of_leads false hL (Or.inl rfl), hcaps]
+  simp [commaMk, h.sp_text]
+
+/-- scrubber 6 (`pp_twprge_comma_remove`): every header with ALL the white space behind it becomes the header and one blank -/
+theorem scrub6_sText (sp fin : Str) (hsp : SepOk sp) (hfin : FinB fin) (ns ew : Str) (h1 : isLegal Gen.LEGAL_NS ns = true)
+    (h2 : isLegal Gen.LEGAL_EW ew = true)
+    (l : Ln) (ls : List Ln) (gs : List Gp) (hL : Hd) (hl : l.Ok) (hls : ∀ x ∈ ls, x.Ok) (hgs : ∀ x ∈ gs, x.Ok ∧ x.h.Canon)
+    (hLok : hL.Ok) (hLc : hL.Canon) :
+    subScrubber "pp_twprge_comma_remove" (sTextF sp fin l ls gs hL) ns ew = .ok (sTextF [' '] [' '] l ls gs hL) := by
+  refine scrub_sText "pp_twprge_comma_remove" commaPat rfl (by decide) comma_gapSkips sp fin hsp true (commaMk sp) (commaMk fin)
+    (fun _ _ => rfl) (fun h pos => by simp [commaMk]) (fun _ _ => rfl) (fun h pos => by simp [commaMk])
+    (fun h l rest prev pos hh _ hprev => comma_tok sp hsp h l rest prev pos hh hprev)
+    (fun h prev pos hh hprev => comma_tokL fin hfin h prev pos hh hprev) (fun h => by cases h) ns ew h1 h2 ?_ ?_
+    l ls gs hL hl hls hgs hLok hLc
+  · intro text g' pre post hok' hc' htext
+    have hv := g'.h.valid hok'.h (g'.body sp ++ post) (by
+      have : g'.body sp ++ post = sp ++ (g'.l.text ++ lnsSeg g'.ls ++ post) := by simp [Gp.body]
+      rw [this]; exact endsTwprge_sep sp _ hsp)
+    have htext' : text = pre ++ (g'.h.sp.text ++ (g'.body sp ++ post)) := by rw [htext, g'.h.sp_text]; simp [Gp.text]
+    have := (g'.h.sp.canonTR_at pre _ hv ns ew).trans (g'.h.canon_text hok'.h hc')
+    rw [← htext'] at this
+    rw [← this]
+    simp only [canonTR, twpPart, rgePart, dirPart, commaMk, comma_group]
+  · intro text h pre hh hc htext
+    have hv := h.valid hh fin (endsTwprge_fin fin hfin)
+    have htext' : text = pre ++ (h.sp.text ++ fin) := by rw [htext, h.sp_text]
+    have := (h.sp.canonTR_at pre _ hv ns ew).trans (h.canon_text hh hc)
+    rw [← htext'] at this
+    rw [← this]
+    simp only [canonTR, twpPart, rgePart, dirPart, commaMk, comma_group]
+
+
+/-! ### white-space reduction -/
+
+theorem good_sText (l : Ln) (ls : List Ln) (gs : List Gp) (hL : Hd) (hl : l.Ok) (hls : ∀ x ∈ ls, x.Ok) (hgs : ∀ x ∈ gs, x.Ok)
+    (hLok : hL.Ok) : Good (sText [' '] l ls gs hL) := by
+  have h1 := (good_ref l hl).join (good_desc l.d hl.d) ' '
+  have h2 := good_lines ls _ h1 hls
+  have h3 := good_groups gs _ h2 hgs
+  have h4 := h3.join (good_hdr hL hLok) '\n'
+  rw [sText_eq]
+  simpa [Ln.text, List.append_assoc] using h4
+
+theorem sText_head (sp : Str) (l : Ln) (ls : List Ln) (gs : List Gp) (hL : Hd) :
+    sText sp l ls gs hL = 'S' :: (['e', 'c', ' ', l.n1, l.n2, ':'] ++ ' ' :: l.d ++ lnsSeg ls ++ '\n' :: hdrsFrom sp gs hL) := by
+  simp [sText, lnsText, Ln.text, Ln.ref]
+
+/-- the final strip removes what stands behind the last Twp/Rge -/
+theorem pyStrip_sText_fin (sp fin : Str) (hfin : FinB fin) (l : Ln) (ls : List Ln) (gs : List Gp) (hL : Hd) (hLok : hL.Ok) :
+    pyStrip (sText sp l ls gs hL ++ fin) = sText sp l ls gs hL := by
+  have h0 := pyStrip_sText sp l ls gs hL hLok
+  have hl : ∀ Y, lstripBy pyIsSpace ('S' :: Y) = 'S' :: Y := fun Y => Pretty.lstripBy_head_false _ _ _ (by decide)
+  have hsp : ∀ c ∈ fin, pyIsSpace c = true := by
+    intro c hc
+    rcases hfin c hc with rfl | rfl
+    · exact pyIsSpace_blank
+    · exact pyIsSpace_nl'
+  unfold pyStrip stripBy at h0 ⊢
+  rw [sText_head] at h0 ⊢
+  rw [hl] at h0
+  rw [List.cons_append, hl, ← List.cons_append, Pretty.rstripBy_append_all _ _ _ hsp]
+  exact h0
+
+theorem reduceWhitespace_sText (fin : Str) (hfin : FinB fin) (l : Ln) (ls : List Ln) (gs : List Gp) (hL : Hd)
+    (hl : l.Ok) (hls : ∀ x ∈ ls, x.Ok) (hgs : ∀ x ∈ gs, x.Ok) (hLok : hL.Ok) :
+    reduceWhitespace (sTextF [' '] fin l ls gs hL) = some (sText [' '] l ls gs hL) := by
+  have hgood := good_sText l ls gs hL hl hls hgs hLok
+  have hch : ∀ c ∈ sText [' '] l ls gs hL, DocCh c := by
+    have := docCh_sTextF [' '] [] sepOk_blank finB_nil l ls gs hL hl hls hgs hLok
+    rwa [sTextF_nil] at this
+  have hhead := sText_head [' '] l ls gs hL
+  have hstep : reduceWhitespaceStep (sText [' '] l ls gs hL) = sText [' '] l ls gs hL := by
+    generalize hT : sText [' '] l ls gs hL = T at hgood hch hhead
+    have e0 : Gen.inl_plss_preprocess_reduce_whitespace_0.sub (S " ") T = T := sub_blank_runs T hgood.np
+    have e1 : Gen.inl_plss_preprocess_reduce_whitespace_1.sub (S " ") T = T :=
+      sub_id_of_noHit (P := fun cs => cs.sub [(9, 9)]) (by decide) _ _
+        (fun c hc => docCh_avoid [(9, 9)] (by decide) (by decide +kernel) (by decide) (hch c hc))
+    have e2 : Gen.inl_plss_preprocess_reduce_whitespace_2.sub (S "\n") T = T :=
+      sub_id_of_noHit (P := fun cs => cs.sub [(13, 13)]) (by decide) _ _
+        (fun c hc => docCh_avoid [(13, 13)] (by decide) (by decide +kernel) (by decide) (hch c hc))
+    have e3 : Gen.inl_plss_preprocess_reduce_whitespace_3.sub (S "\n\n") T = T := sub_nl_runs T hgood.np
+    have e4 : Gen.inl_plss_preprocess_reduce_whitespace_4.sub [] T = T := by
+      rw [hhead]; exact sub_bos_blank 'S' _ (by decide)
+    unfold reduceWhitespaceStep
+    simp only [e0, e1, e2, e3, e4]
+  unfold reduceWhitespace
+  simp only [sTextF_eq, pyStrip_sText_fin [' '] fin hfin l ls gs hL hLok]
+  rw [show 2 * (sText [' '] l ls gs hL).length + 8 = (2 * (sText [' '] l ls gs hL).length + 7) + 1 from rfl]
+  exact Tract.untilStable_of_fixed _ _ _ hstep
+
+/-! ### `find_twprge` and `plss_preprocess` -/
+
+theorem twprge_tokLF (fin : Str) (hfin : FinB fin) (h : Hd) (prev : Option Char) (pos : Nat) (hh : h.Ok)
+    (hprev : isWord Gen.cs_14d6aa8a prev = false) :
+    matchHere Gen.twprge_regex ⟨prev, h.text ++ fin, pos, []⟩ false = some (twMk h pos) := by
+  have hv := h.valid hh fin (endsTwprge_fin fin hfin)
+  have := C08_spelling_matchHere h.sp _ hv prev hprev pos false
+  rw [h.sp_text] at this
+  exact this
+
+theorem twprge_hcanL (fin : Str) (hfin : FinB fin) (ns ew text : Str) (h : Hd) (pre : Str) (hh : h.Ok) (hc : h.Canon)
+    (htext : text = pre ++ (h.text ++ fin)) : canonTR twprge (twMk h pre.length) text ns ew false = h.text := by
+  have hv := h.valid hh fin (endsTwprge_fin fin hfin)
+  have htext' : text = pre ++ (h.sp.text ++ fin) := by rw [htext, h.sp_text]
+  rw [htext']
+  exact (h.sp.canonTR_at pre _ hv ns ew).trans (h.canon_text hh hc)
+
+theorem map_canon_hdrsF (p : Pat) (mk mkL : Hd → Nat → Match) (sp fin ns ew text : Str) (hL : Hd)
+    (hcan : ∀ (g : Gp) (pre post : Str), g.Ok → g.h.Canon → text = pre ++ (g.text sp ++ post) →
+      canonTR p (mk g.h pre.length) text ns ew false = g.h.text)
+    (hcanL : ∀ (pre : Str), text = pre ++ (hL.text ++ fin) → canonTR p (mkL hL pre.length) text ns ew false = hL.text) :
+    ∀ (gs : List Gp) (pre : Str), (∀ x ∈ gs, x.Ok ∧ x.h.Canon) → text = pre ++ hdrsF sp fin gs hL →
+      (hdrMs mk sp pre.length gs ++ [mkL hL (pre.length + (gpsSeg sp gs).length)]).map (fun m => canonTR p m text ns ew false) =
+        gs.map (fun x => x.h.text) ++ [hL.text]
+  | [], pre, _, htext => by
+    simp only [hdrMs, gpsSeg, List.nil_append, List.length_nil, Nat.add_zero, List.map_cons, List.map_nil,
+      hcanL pre (by rw [htext]; rfl)]
+  | g :: gs, pre, hgs, htext => by
+    have hg := hgs g (by simp)
+    have ih := map_canon_hdrsF p mk mkL sp fin ns ew text hL hcan hcanL gs (pre ++ g.text sp ++ ['\n'])
+      (fun x hx => hgs x (by simp [hx])) (by rw [htext]; simp [hdrsF])
+    have hl : (pre ++ g.text sp ++ ['\n']).length = pre.length + (g.text sp).length + 1 := by simp; omega
+    rw [hl] at ih
+    have hpos : pre.length + (gpsSeg sp (g :: gs)).length = pre.length + (g.text sp).length + 1 + (gpsSeg sp gs).length := by
+      simp [gpsSeg]; omega
+    rw [show hdrMs mk sp pre.length (g :: gs) = mk g.h pre.length :: hdrMs mk sp (pre.length + (g.text sp).length + 1) gs from rfl, hpos]
+    simp only [List.cons_append, List.map_cons, hcan g pre _ hg.1 hg.2 (by rw [htext]; rfl), ih]
+
+/-- `find_twprge` on the text: the Twp/Rges, in order -/
+theorem findTwprgeRaw_sText (sp fin : Str) (hsp : SepOk sp) (hfin : FinB fin) (ns ew : Str) (h1 : isLegal Gen.LEGAL_NS ns = true)
+    (h2 : isLegal Gen.LEGAL_EW ew = true)
+    (l : Ln) (ls : List Ln) (gs : List Gp) (hL : Hd) (hl : l.Ok) (hls : ∀ x ∈ ls, x.Ok) (hgs : ∀ x ∈ gs, x.Ok ∧ x.h.Canon)
+    (hLok : hL.Ok) (hLc : hL.Canon) :
+    findTwprgeRaw (sTextF sp fin l ls gs hL) ns ew = .ok (gs.map (fun x => x.h.text) ++ [hL.text]) := by
+  have hfi : twprge.rx.finditer (sTextF sp fin l ls gs hL) =
+      hdrMs twMk sp ((lnsText l ls).length + 1) gs ++ [twMk hL ((lnsText l ls).length + 1 + (gpsSeg sp gs).length)] :=
+    (sTextTilesF Gen.twprge_regex twprge_gapSkips sp fin hsp false twMk
+      (fun h l rest prev pos hok hl hprev => twprge_tok sp hsp h l rest prev pos hok hl hprev) twMk
+      (fun h prev pos hh hprev => ⟨twprge_tokLF fin hfin h prev pos hh hprev, rfl, by simp [twMk, Spelling.matchAt, h.sp_text]⟩)
+      (fun _ => fin_tiles twprge_mustDigit fin hfin) l ls gs hL hl hls (fun x hx => (hgs x hx).1) hLok).finditer_eq
+  rw [C08_findTwprgeRaw_order _ ns ew h1 h2, hfi]
+  have := map_canon_hdrsF twprge twMk twMk sp fin ns ew (sTextF sp fin l ls gs hL) hL
+    (fun g' pre post hok' hc' ht => twprge_hcan sp hsp ns ew _ g' pre post hok' hc' ht)
+    (fun pre ht => twprge_hcanL fin hfin ns ew _ hL pre hLok hLc ht) gs (lnsText l ls ++ ['\n']) hgs (by simp [sTextF])
+  have hlen : (lnsText l ls ++ ['\n']).length = (lnsText l ls).length + 1 := by simp
+  rw [hlen] at this
+  rw [this]
+
+theorem nswe_mustDigit : Gen.pp_twprge_no_nswe.mustHitP (fun cs => cs.sub digitD) = true := by decide +kernel
+theorem nsr_mustDigit : Gen.pp_twprge_no_nsr.mustHitP (fun cs => cs.sub digitD) = true := by decide +kernel
+theorem ewt_mustDigit : Gen.pp_twprge_no_ewt.mustHitP (fun cs => cs.sub digitD) = true := by decide +kernel
+
+/-- **`plss_preprocess` on the canonical text of the layout Sec–desc–Twp/Rge** (whatever blanks / line breaks stand behind
+    the Twp/Rges, also behind the last one): the separator behind every inner Twp/Rge becomes one blank, what stands behind
+    the last Twp/Rge is removed, everything else is kept; no `fixed_twprge`, no divergence -/
+theorem plssPreprocess_sText (mc : MC) (defNS defEW : Option Str)
+    (hm1 : isLegal Gen.LEGAL_NS mc.ns = true) (hm2 : isLegal Gen.LEGAL_EW mc.ew = true)
+    (h1 : isLegal Gen.LEGAL_NS (resolve defNS mc.ns) = true) (h2 : isLegal Gen.LEGAL_EW (resolve defEW mc.ew) = true)
+    (sp fin : Str) (hsp : SepOk sp) (hfin : FinB fin)
+    (l : Ln) (ls : List Ln) (gs : List Gp) (hL : Hd) (hl : l.Ok) (hls : ∀ x ∈ ls, x.Ok) (hgs : ∀ x ∈ gs, x.Ok ∧ x.h.Canon)
+    (hLok : hL.Ok) (hLc : hL.Canon) :
+    plssPreprocess mc (sTextF sp fin l ls gs hL) defNS defEW false =
+      .ok { text := sText [' '] l ls gs hL, fixed := [], diverged := false } := by
+  have hgs' : ∀ x ∈ gs, x.Ok := fun x hx => (hgs x hx).1
+  have hsp1 := sepOk_cons_blank hsp
+  have hsp2 := sepOk_cons_blank hsp1
+  have hsp3 := sepOk_cons_blank hsp2
+  have hsp4 := sepOk_cons_blank hsp3
+  have hf1 := hfin.cons_blank
+  have hf2 := hf1.cons_blank
+  have hf3 := hf2.cons_blank
+  have hf4 := hf3.cons_blank
+  have ho := findTwprgeRaw_sText sp fin hsp hfin mc.ns mc.ew hm1 hm2 l ls gs hL hl hls hgs hLok hLc
+  have hp := findTwprgeRaw_sText [' '] [] sepOk_blank finB_nil mc.ns mc.ew hm1 hm2 l ls gs hL hl hls hgs hLok hLc
+  rw [sTextF_nil] at hp
+  have s1 := scrub1_sText sp fin hsp hfin _ _ h1 h2 l ls gs hL hl hls hgs hLok hLc
+  have s2 := scrubPP_sText "pp_twprge_no_nswe" ppNswePat rfl (by decide) nswe_gapSkips nswe_mustDigit (by decide) nsweCaps canonAt_nswe
+    (fun t r nc ec ctx h prev pos hprev => no_nswe_at t r nc ec ctx h prev pos hprev) _ _ hsp1 hf1 _ _ h1 h2 l ls gs hL hl hls hgs hLok hLc
+  have s3 := scrubPP_sText "pp_twprge_no_nsr" ppNsrPat rfl (by decide) nsr_gapSkips nsr_mustDigit (by decide) nsrCaps canonAt_nsr
+    (fun t r nc ec ctx h prev pos hprev => no_nsr_at t r nc ec ctx h prev pos hprev) _ _ hsp2 hf2 _ _ h1 h2 l ls gs hL hl hls hgs hLok hLc
+  have s4 := scrubPP_sText "pp_twprge_no_ewt" ppEwtPat rfl (by decide) ewt_gapSkips ewt_mustDigit (by decide) ewtCaps canonAt_ewt
+    (fun t r nc ec ctx h prev pos hprev => no_ewt_at t r nc ec ctx h prev pos hprev) _ _ hsp3 hf3 _ _ h1 h2 l ls gs hL hl hls hgs hLok hLc
+  have s5 := scrub5_sText _ _ hsp4 hf4 _ _ h1 h2 l ls gs hL hl hls hgs' hLok
+  have s6 := scrub6_sText _ _ hsp4 hf4 _ _ h1 h2 l ls gs hL hl hls hgs hLok hLc
+  have hrw := reduceWhitespace_sText [' '] finB_blank l ls gs hL hl hls hgs' hLok
+  have hnames : scrubberNames false = ["twprge_regex", "pp_twprge_no_nswe", "pp_twprge_no_nsr", "pp_twprge_no_ewt",
+    "pp_twprge_pm", "pp_twprge_comma_remove"] := rfl
+  unfold plssPreprocess
+  simp only [ho, hnames, List.foldlM_cons, List.foldlM_nil, s1, s2, s3, s4, s5, s6, bind, Except.bind, pure, Except.pure, hrw, hp,
+    C08_fixed_nil_of_same]
+
+
+theorem StdHd.canon {h : Hd} (hs : StdHd h) : h.Canon := by
+  obtain ⟨a, b, ns, ew, _, _, _, _, rfl⟩ := hs
+  exact ⟨strip_natToStr a, strip_natToStr b⟩
+
+/-- **C01 — the layout Sec–desc–Twp/Rge on TEXT, through the whole parser, with no lexical premise.**
+    For every abstract description — lines (two-digit section, inert block) grouped under standard Twp/Rges (numbers below
+    1000) that CLOSE their groups — the canonical text (whatever blanks / line breaks `sp` stand behind an inner Twp/Rge and
+    whatever blanks / line breaks `fin`, possibly none, behind the last one) is parsed by `PLSSParser` (layout deduced or given
+    as S_desc_TR; any `require_colon` mode, any `clean_up`, any legal default directions; no OCR scrubbing, no segmenting, no
+    `sec_within`) into exactly one tract per line, in reading order, with the Twp/Rge closing its group, its section and its
+    block verbatim; the layout is S_desc_TR; no error flag; no tract has an error Twp/Rge/Sec. -/
+theorem C01_canonical_forward_S_desc_TR (mc : MC) (uid0 : Nat) (a : ParserArgs) (sp fin : Str) (hsp : SepOk sp) (hfin : FinB fin)
+    (l : Ln) (ls : List Ln) (gs : List Gp) (hL : Hd) (hstd : StdS l ls gs hL)
+    (hm1 : isLegal Gen.LEGAL_NS mc.ns = true) (hm2 : isLegal Gen.LEGAL_EW mc.ew = true)
+    (h1 : isLegal Gen.LEGAL_NS (resolve a.defaultNS mc.ns) = true) (h2 : isLegal Gen.LEGAL_EW (resolve a.defaultEW mc.ew) = true)
+    (ha1 : a.ocrScrub = false) (ha2 : a.segment = false) (ha3 : a.secWithin = false)
+    (hlay : a.layout = none ∨ a.layout = some S_DESC_TR) (hd : Str) (c : Config.Cfg)
+    (hhd : handedDownText a = .ok hd) (hcfg : Config.ofText hd = .ok c) :
+    ∃ out, plssParser mc uid0 (sTextF sp fin l ls gs hL) a = .ok out ∧ out.layout = S_DESC_TR ∧
+      out.text = sText [' '] l ls gs hL ∧ out.fl.e = [] ∧
+      out.tracts.map (fun t => (t.trs, t.desc)) = (sTracts l ls gs hL).map (fun p => (TRS.trsToDict (some p.1), p.2)) ∧
+      (∀ t ∈ out.tracts, TRS.isError t.trs = false) := by
+  have hpp := plssPreprocess_sText mc a.defaultNS a.defaultEW hm1 hm2 h1 h2 sp fin hsp hfin l ls gs hL hstd.l hstd.ls
+    (fun x hx => ⟨(hstd.gs x hx).ok, (hstd.gs x hx).canon⟩) hstd.hL.ok hstd.hL.canon
+  exact C01_canonical_forward_S_desc_TR_partial mc uid0 a _ l ls gs hL hstd hm1 hm2 (by rw [ha1]; exact hpp) ha2 ha3 hlay hd c
+    hhd hcfg
+
+/-- the full statement recorded in Part 5 holds -/
+theorem C01_canonical_forward_S_desc_TR_full : C01_canonical_forward_S_desc_TR_statement := by
+  intro mc uid0 a sp l ls gs hL hsp hstd hm1 hm2 h1 h2 ha1 ha2 ha3 hlay hd c hhd hcfg
+  have := C01_canonical_forward_S_desc_TR mc uid0 a sp [] hsp finB_nil l ls gs hL hstd hm1 hm2 h1 h2 ha1 ha2 ha3 hlay hd c hhd hcfg
+  rwa [sTextF_nil] at this
+
+
+/-! ## Part 5c — the same, stated for a list of groups (lines, closing Twp/Rge) -/
+
+/-- a group of the layout Sec–desc–Twp/Rge: its lines and the Twp/Rge that closes it -/
+structure SGp where
+  l : Ln
+  ls : List Ln
+  h : Hd
+
+def SGp.lines (g : SGp) : List Ln := g.l :: g.ls
+/-- `Sec nn: <block>` lines, a line break, the Twp/Rge -/
+def SGp.text (g : SGp) : Str := lnsText g.l g.ls ++ '\n' :: g.h.text
+
+/-- the canonical text of the groups `g :: gs`, separated by `sp` -/
+def sDoc (sp : Str) : SGp → List SGp → Str
+  | g, [] => g.text
+  | g, g' :: gs => g.text ++ sp ++ sDoc sp g' gs
+
+/-- lines with inert blocks, a standard Twp/Rge -/
+structure StdSGp (g : SGp) : Prop where
+  ls : ∀ l ∈ g.lines, l.Ok
+  h : StdHd g.h
+
+/-- the tracts the text stands for: (trs string, description), one per line, with the Twp/Rge closing its group -/
+def sDocTracts (gs : List SGp) : List (Str × Str) :=
+  gs.flatMap (fun g => g.lines.map (fun l => (g.h.key ++ [l.n1, l.n2], l.d)))
+
+/-- the form used in the proofs: every Twp/Rge with the lines that FOLLOW it, and the last Twp/Rge -/
+def shiftGps : Hd → List SGp → List Gp × Hd
+  | h, [] => ([], h)
+  | h, g :: gs => (⟨h, g.l, g.ls⟩ :: (shiftGps g.h gs).1, (shiftGps g.h gs).2)
+
+theorem sDoc_eq (sp : Str) : ∀ (gs : List SGp) (g : SGp),
+    sDoc sp g gs = sText sp g.l g.ls (shiftGps g.h gs).1 (shiftGps g.h gs).2
+  | [], g => by simp [sDoc, SGp.text, sText, shiftGps, hdrsFrom]
+  | g' :: gs, g => by
+    have ih := sDoc_eq sp gs g'
+    simp only [sDoc, ih, shiftGps]
+    simp [SGp.text, sText, hdrsFrom, Gp.text, Gp.body, lnsText]
+
+theorem sTracts_shift : ∀ (gs : List SGp) (g : SGp),
+    sTracts g.l g.ls (shiftGps g.h gs).1 (shiftGps g.h gs).2 = sDocTracts (g :: gs)
+  | [], g => by simp [sTracts, sPairs, shiftGps, sDocTracts, SGp.lines, List.map_map, Function.comp_def]
+  | g' :: gs, g => by
+    have ih := sTracts_shift gs g'
+    simp only [sTracts, sDocTracts] at ih ⊢
+    simp only [shiftGps, sPairs, List.map_append, ih, List.flatMap_cons]
+    simp [SGp.lines, List.map_map, Function.comp_def]
+
+theorem shift_std : ∀ (gs : List SGp) (h : Hd), StdHd h → (∀ x ∈ gs, StdSGp x) →
+    (∀ y ∈ (shiftGps h gs).1, StdGp y) ∧ StdHd (shiftGps h gs).2
+  | [], h, hh, _ => ⟨fun _ hy => (by simp [shiftGps] at hy), hh⟩
+  | g :: gs, h, hh, hgs => by
+    have hg := hgs g (by simp)
+    obtain ⟨i1, i2⟩ := shift_std gs g.h hg.h (fun x hx => hgs x (by simp [hx]))
+    refine ⟨?_, i2⟩
+    intro y hy
+    simp only [shiftGps, List.mem_cons] at hy
+    rcases hy with rfl | hy
+    · exact ⟨⟨hh.ok, hg.ls⟩, hh⟩
+    · exact i1 y hy
+
+/-- **C01 — the layout Sec–desc–Twp/Rge on TEXT, through the whole parser** (`C01_canonical_forward_S_desc_TR` stated for a
+    non-empty list of groups): the text `Sec nn: <block>` lines / Twp/Rge, groups separated by any blanks / line breaks `sp`,
+    any blanks / line breaks `fin` at the end, is parsed into one tract per line with the Twp/Rge that closes its group -/
+theorem C01_canonical_forward_S_desc_TR_groups (mc : MC) (uid0 : Nat) (a : ParserArgs) (sp fin : Str) (hsp : SepOk sp)
+    (hfin : FinB fin) (g : SGp) (gs : List SGp) (hstd : ∀ x ∈ g :: gs, StdSGp x)
+    (hm1 : isLegal Gen.LEGAL_NS mc.ns = true) (hm2 : isLegal Gen.LEGAL_EW mc.ew = true)
+    (h1 : isLegal Gen.LEGAL_NS (resolve a.defaultNS mc.ns) = true) (h2 : isLegal Gen.LEGAL_EW (resolve a.defaultEW mc.ew) = true)
+    (ha1 : a.ocrScrub = false) (ha2 : a.segment = false) (ha3 : a.secWithin = false)
+    (hlay : a.layout = none ∨ a.layout = some S_DESC_TR) (hd : Str) (c : Config.Cfg)
+    (hhd : handedDownText a = .ok hd) (hcfg : Config.ofText hd = .ok c) :
+    ∃ out, plssParser mc uid0 (sDoc sp g gs ++ fin) a = .ok out ∧ out.layout = S_DESC_TR ∧
+      out.text = sDoc [' '] g gs ∧ out.fl.e = [] ∧
+      out.tracts.map (fun t => (t.trs, t.desc)) = (sDocTracts (g :: gs)).map (fun p => (TRS.trsToDict (some p.1), p.2)) ∧
+      (∀ t ∈ out.tracts, TRS.isError t.trs = false) := by
+  have hg := hstd g (by simp)
+  obtain ⟨i1, i2⟩ := shift_std gs g.h hg.h (fun x hx => hstd x (by simp [hx]))
+  have hS : StdS g.l g.ls (shiftGps g.h gs).1 (shiftGps g.h gs).2 :=
+    ⟨hg.ls g.l (by simp [SGp.lines]), fun x hx => hg.ls x (by simp [SGp.lines, hx]), i1, i2⟩
+  have := C01_canonical_forward_S_desc_TR mc uid0 a sp fin hsp hfin g.l g.ls (shiftGps g.h gs).1 (shiftGps g.h gs).2 hS
+    hm1 hm2 h1 h2 ha1 ha2 ha3 hlay hd c hhd hcfg
+  rw [sTextF_eq, ← sDoc_eq, ← sDoc_eq, sTracts_shift] at this
+  exact this
+
+
 /-! ## Part 6 — non-vacuity: concrete instances -/
 
 /-- a decidable check of a preprocessing result (the premise `hpp` of `C01_canonical_forward_S_desc_TR_partial`) -/
@@ -1187,6 +1867,55 @@ example : Reports {} .cautious (sText [' '] l0 [l1] [gA] hZ) .sDescTr (sGroups [
   C01_reports_S_desc_TR {} (by decide) (by decide) [' '] sepOk_blank l0 [l1] [gA] hZ l0_ok ls_ok (fun x hx => (gs_std x hx).ok)
     hZ_std.ok .cautious
 
+/-- `C01_canonical_forward_S_desc_TR` on the concrete text (line break behind the inner Twp/Rge, a line break at the end) -/
+example : ∃ out, plssParser {} 0 (sTextF ['\n'] ['\n'] l0 [l1] [gA] hZ) {} = .ok out ∧ out.layout = S_DESC_TR ∧
+    out.text = sText [' '] l0 [l1] [gA] hZ ∧ out.fl.e = [] ∧
+    out.tracts.map (fun t => (t.trs, t.desc)) = (sTracts l0 [l1] [gA] hZ).map (fun p => (TRS.trsToDict (some p.1), p.2)) ∧
+    (∀ t ∈ out.tracts, TRS.isError t.trs = false) :=
+  C01_canonical_forward_S_desc_TR {} 0 {} ['\n'] ['\n'] sepOk_nl (fun c hc => by simp at hc; exact Or.inr hc) l0 [l1] [gA] hZ ex_std
+    (by decide) (by decide) (by decide) (by decide) rfl rfl rfl (Or.inl rfl) hd0 cfg0 hd0_ok cfg0_ok
+
+/-- `plssPreprocess_sText` on the concrete text -/
+example : plssPreprocess {} (sTextF ['\n'] ['\n'] l0 [l1] [gA] hZ) none none false =
+    .ok { text := sText [' '] l0 [l1] [gA] hZ, fixed := [], diverged := false } :=
+  plssPreprocess_sText {} none none (by decide) (by decide) (by decide) (by decide) ['\n'] ['\n'] sepOk_nl
+    (fun c hc => by simp at hc; exact Or.inr hc) l0 [l1] [gA] hZ l0_ok ls_ok (fun x hx => ⟨(gs_std x hx).ok, (gs_std x hx).canon⟩)
+    hZ_std.ok hZ_std.canon
+
+/-- the same description as a list of groups (lines, closing Twp/Rge) -/
+def sg1 : SGp := ⟨l0, [l1], stdHd 154 97 'n' 'w'⟩
+def sg2 : SGp := ⟨⟨'3', '6', S "wy Wyoming; f/k/a marker"⟩, [], hZ⟩
+
+theorem sg_std : ∀ x ∈ [sg1, sg2], StdSGp x := by
+  intro x hx
+  simp only [List.mem_cons, List.not_mem_nil, or_false] at hx
+  rcases hx with rfl | rfl
+  · refine ⟨?_, ⟨154, 97, 'n', 'w', by decide, by decide, Or.inl rfl, Or.inr rfl, rfl⟩⟩
+    intro l hl
+    simp only [SGp.lines, sg1, List.mem_cons, List.not_mem_nil, or_false] at hl
+    rcases hl with rfl | rfl
+    · exact l0_ok
+    · exact l1_ok
+  · refine ⟨?_, hZ_std⟩
+    intro l hl
+    simp only [SGp.lines, sg2, List.mem_cons, List.not_mem_nil, or_false] at hl
+    subst hl
+    exact ⟨by decide, by decide, by decide +kernel⟩
+
+example : sDoc ['\n'] sg1 [sg2] ++ ['\n'] =
+    S "Sec 14: hog valley by bluff\nSec 15: fern gully\nT154N-R97W\nSec 36: wy Wyoming; f/k/a marker\nT7S-R102E\n" := by decide +kernel
+
+/-- `C01_canonical_forward_S_desc_TR_groups` on the concrete groups, separator `"\n"`, a line break at the end -/
+example : ∃ out, plssParser {} 0 (sDoc ['\n'] sg1 [sg2] ++ ['\n']) {} = .ok out ∧ out.layout = S_DESC_TR ∧
+    out.text = sDoc [' '] sg1 [sg2] ∧ out.fl.e = [] ∧
+    out.tracts.map (fun t => (t.trs, t.desc)) = (sDocTracts [sg1, sg2]).map (fun p => (TRS.trsToDict (some p.1), p.2)) ∧
+    (∀ t ∈ out.tracts, TRS.isError t.trs = false) :=
+  C01_canonical_forward_S_desc_TR_groups {} 0 {} ['\n'] ['\n'] sepOk_nl (fun c hc => by simp at hc; exact Or.inr hc) sg1 [sg2] sg_std
+    (by decide) (by decide) (by decide) (by decide) rfl rfl rfl (Or.inl rfl) hd0 cfg0 hd0_ok cfg0_ok
+
+example : sDocTracts [sg1, sg2] = [(S "154n97w14", S "hog valley by bluff"), (S "154n97w15", S "fern gully"),
+    (S "7s102e36", S "wy Wyoming; f/k/a marker")] := by decide +kernel
+
 end Layout2Ex
 
 #print axioms hdrsTiles
@@ -1198,5 +1927,9 @@ end Layout2Ex
 #print axioms C01_chunk_canonical_S_desc_TR
 #print axioms C01_canonical_forward_S_desc_TR_partial
 #print axioms Layout2Ex.pp_ex
+#print axioms plssPreprocess_sText
+#print axioms C01_canonical_forward_S_desc_TR
+#print axioms C01_canonical_forward_S_desc_TR_full
+#print axioms C01_canonical_forward_S_desc_TR_groups
 
 end PyTRS
